@@ -842,6 +842,76 @@ def check_solve(rec, seed, k, i, tier):
                 'frequency': freq, 'tol': tol, 'field_spread': worst})
 
 
+def check_gridopts(rec, seed, k, i, tier):
+    """The parameters that automatic gridding derives from the model (buffer
+    conductivities per side) and the resulting mesh must not depend on the
+    mapping in which the same conductivities are expressed."""
+    import emg3d
+    r = gen.rng(seed, 'C14', 'gridopts', k, i)
+    shape = tuple(int(x) for x in r.integers(3, 9, 3))
+    gs = gen.grid_spec(r, shape)
+    ms = model_truth(r, shape, mu=False, eps=False)
+    grid = gen.build_emg3d(gs)
+    nodes = [grid.nodes_x, grid.nodes_y, grid.nodes_z]
+
+    def pt():
+        return [float(r.uniform(n[1], n[-2])) for n in nodes]
+    src = emg3d.TxElectricDipole(np.array([pt(), pt()]))
+    recs = [emg3d.RxElectricPoint((*pt(), 0.0, 0.0)) for _ in range(2)]
+    survey = emg3d.surveys.Survey(src, recs, [float(10**r.uniform(-1, 1))])
+    case = {'seed': seed, 'k': k, 'i': i, 'shape': shape,
+            'case': ms['case'], 'grid': gen.summarize_grid(gs)}
+    rec.case()
+    out, meshes = {}, {}
+    for mapping in MAPPINGS:
+        model = make_model(emg3d, grid, ms, mapping, 'construct', r)
+        with quiet():
+            g = emg3d.meshes.estimate_gridding_opts({}, model, survey)
+        props = np.array(ref_backward(np.asarray(g['properties'], float),
+                                      g['mapping']))
+        out[mapping] = (props, g)
+        if i % 4 == 0:
+            try:
+                with quiet():
+                    m = emg3d.construct_mesh(**g)
+                meshes[mapping] = [np.array(h) for h in m.h] + \
+                    [np.array(m.origin)]
+            except RuntimeError:
+                meshes[mapping] = None
+    rec.event('gridding_opts_estimates', len(MAPPINGS))
+    p0, g0 = out['Conductivity']
+    for mapping, (pp, g) in out.items():
+        d = float(np.abs(pp - p0).max()/np.abs(p0).max())
+        rec.margin('gridding_properties_spread', d)
+        rec.event('gridding_properties_checks')
+        same = all(np.allclose(np.asarray(g['domain'][a], float),
+                               np.asarray(g0['domain'][a], float),
+                               rtol=1e-13, atol=0) for a in 'xyz') and \
+            np.allclose(g['center'], g0['center'], rtol=1e-13, atol=0) and \
+            g['frequency'] == g0['frequency']
+        if not (d <= 1e-12) or not same:
+            rec.violation('C14:gridding-parameters-differ-between-mappings',
+                          f'estimate_gridding_opts: buffer conductivities '
+                          f'{pp.tolist()} for mapping {mapping} vs '
+                          f'{p0.tolist()} for Conductivity (same physical '
+                          f'model); domain/centre/frequency equal: {same}',
+                          case)
+            return
+    if meshes:
+        m0 = meshes['Conductivity']
+        rec.event('automatic_mesh_checks')
+        for mapping, m in meshes.items():
+            if (m is None) != (m0 is None) or (m is not None and any(
+                    a.shape != b.shape or not np.allclose(a, b, rtol=1e-12,
+                                                          atol=0)
+                    for a, b in zip(m, m0))):
+                rec.violation('C14:automatic-mesh-differs-between-mappings',
+                              f'construct_mesh(**estimate_gridding_opts) '
+                              f'differs for mapping {mapping}', case)
+                return
+    rec.distinct(('gridopts', ms['case'], shape))
+
+
 def make_survey(emg3d, spec):
     srcs = [emg3d.TxElectricDipole(np.array(s)) for s in spec['sources']]
     recs = []
@@ -1032,6 +1102,7 @@ def plan(tier, seed):
                               'rep0': 0, 'reps': 2})
             parts.append({'mode': 'maps', 'k': k, 'n': 20})
             parts.append({'mode': 'coef', 'k': k, 'n': 125})
+            parts.append({'mode': 'gridopts', 'k': k, 'n': 12})
             out.append({'id': f'q{k}', 'parts': parts})
         return out
     nb = 40
@@ -1039,7 +1110,8 @@ def plan(tier, seed):
         parts = [{'mode': 'solve', 'k': k, 'n': 5},
                  {'mode': 'sim', 'k': k, 'n': 3},
                  {'mode': 'maps', 'k': k, 'n': 200},
-                 {'mode': 'coef', 'k': k, 'n': 1000}]
+                 {'mode': 'coef', 'k': k, 'n': 1000},
+                 {'mode': 'gridopts', 'k': k, 'n': 100}]
         if k < 30:
             parts.append({'mode': 'reject', 'mapping': MAPPINGS[k % 6],
                           'rep0': 4*(k//6), 'reps': 4})
@@ -1083,6 +1155,8 @@ def run_batch(batch):
                 guarded(check_solve, seed, part['k'], i, tier)
             elif mode == 'sim':
                 guarded(check_sim, seed, part['k'], i, tier)
+            elif mode == 'gridopts':
+                guarded(check_gridopts, seed, part['k'], i, tier)
     return rec.result()
 
 
